@@ -88,6 +88,9 @@ def u_qty_loader(I):
         rv, re_ = qty_parts(r)
         return [('a bare number takes the default unit of its kind: SI magnitude x*SI(unit), dimension of the unit -- zero included',
                  z3.And(z3.BoolVal(is_qty(r)), z3_of(rv) == xv * uv, same(re_, ue)))]
+    writes = [e for e in ctx.effects if e[0].startswith('write')]
+    ctx.oblige('the loader keeps no state between calls: no write to the loader object, its class or module-level containers',
+               z3.BoolVal(not writes), writes=str(writes))
     check_outcome(I, out, raises={'InputDataError': need_err}, returns=posts, site='qty_loader.__call__')
     return {'inputs': {}}
 
@@ -144,7 +147,7 @@ def u_yaml_construct(I):
     out = run_target(I, INC, 'ThermochemIncomplete.yaml_construct', [cls, params, {}])
 
     def plain(v):
-        return not is_qty(v) and not isinstance(v, Obj)
+        return v is not None and not is_qty(v) and not isinstance(v, Obj)
 
     def posts(r):
         a = got.get('args')
@@ -196,3 +199,6 @@ for u in C10.UNITS:
     if u.name.startswith('helpers.with_units'):
         u.world_factory = C10.world
         UNITS.append(u)
+
+from . import standins
+STANDINS = [standins.c12_presentations]
